@@ -37,6 +37,13 @@ type Case struct {
 	Sched       []int `json:"sched,omitempty"`
 	Procs       int   `json:"procs,omitempty"`
 	Reps        int   `json:"reps,omitempty"`
+	// Prelude: number of other keys (1000, 1001, ...) locked and unlocked sequentially before anything else, so that
+	// the threads' first uses of their keys happen at different fill levels of whatever the implementation keeps per key
+	Prelude int `json:"prelude,omitempty"`
+	// HoldPrelude (stress only): the harness keeps every prelude key LOCKED while the goroutines run, and the
+	// goroutines' sections become Try-only (nothing can block). A fresh key that wrongly shares state with an
+	// older key then shows as a failing TryLockKey on a private key.
+	HoldPrelude bool `json:"hold_prelude,omitempty"`
 }
 
 type locker struct {
@@ -173,6 +180,10 @@ func RunSched(c Case) pbt.Outcome {
 		l.krw = &sync2.KeyedRWMutex[int]{}
 	} else {
 		l.km = &sync2.KeyedMutex[int]{}
+	}
+	for i := 0; i < c.Prelude; i++ {
+		l.acquire("lock", 1000+i)
+		l.release("lock", 1000+i)
 	}
 	// quiescent prefix: warm the key up, then ClearKey
 	for _, k := range c.ClearBefore {
@@ -410,6 +421,7 @@ func gen(t *rapid.T, withSched bool) Case {
 		}
 		c.Threads = append(c.Threads, prog)
 	}
+	c.Prelude = rapid.SampledFrom([]int{0, 0, 0, 1, 5, 13, 14, 15, 16, 17, 30, 31, 33, 63, 64}).Draw(t, "prelude")
 	if rapid.IntRange(0, 4).Draw(t, "clear") == 0 {
 		c.ClearBefore = rapid.SliceOfN(rapid.IntRange(0, c.Keys-1), 0, 2).Draw(t, "clearbefore")
 		c.ClearAfter = rapid.SliceOfN(rapid.IntRange(0, c.Keys-1), 0, 2).Draw(t, "clearafter")
@@ -425,6 +437,7 @@ func gen(t *rapid.T, withSched bool) Case {
 	} else {
 		c.Procs = rapid.SampledFrom([]int{2, 4, 8, 16}).Draw(t, "procs")
 		c.Reps = 30
+		c.HoldPrelude = c.Prelude > 0 && rapid.Bool().Draw(t, "holdprelude")
 	}
 	return c
 }
@@ -544,6 +557,12 @@ func RunStress(c Case) pbt.Outcome {
 		} else {
 			l.km = &sync2.KeyedMutex[int]{}
 		}
+		for i := 0; i < c.Prelude; i++ {
+			l.acquire("lock", 1000+i)
+			if !c.HoldPrelude {
+				l.release("lock", 1000+i)
+			}
+		}
 		ks := make([]*keyState, c.Keys)
 		for i := range ks {
 			ks[i] = &keyState{}
@@ -554,6 +573,13 @@ func RunStress(c Case) pbt.Outcome {
 		var gate atomic.Int32
 		var exec func(th int, sec Sect, holding map[int]bool)
 		exec = func(th int, sec Sect, holding map[int]bool) {
+			if c.HoldPrelude { // nothing may block in this mode
+				if isWrite(sec.Kind) {
+					sec.Kind = "try"
+				} else {
+					sec.Kind = "tryr"
+				}
+			}
 			ok := l.acquire(sec.Kind, sec.Key)
 			if !ok {
 				return
@@ -598,13 +624,26 @@ func RunStress(c Case) pbt.Outcome {
 				for int(gate.Load()) < len(c.Threads) {
 					runtime.Gosched()
 				}
+				// every goroutine also has a PRIVATE key nobody else ever touches: TryLockKey on it must succeed
+				// (it is free and uncontended by construction), whatever the other goroutines hold meanwhile
+				private := 500 + ti
 				for _, sec := range prog {
+					if !l.acquire("try", private) {
+						fail(fmt.Sprintf("goroutine %d: TryLockKey(%d) returned false although no other goroutine ever uses that key", ti, private))
+						return
+					}
 					exec(ti, sec, map[int]bool{})
+					l.release("try", private)
 				}
 			}()
 		}
 		go func() { wg.Wait(); close(done) }()
 		<-done
+		if c.HoldPrelude {
+			for i := 0; i < c.Prelude; i++ {
+				l.release("lock", 1000+i)
+			}
+		}
 		if v := viol.Load(); v != nil {
 			return pbt.Fail("free-running repetition %d: %s", rep, *v)
 		}
